@@ -527,6 +527,26 @@ def jpgen_job(scen, rnd):
     return job
 
 
+def taxsheets_job(scen, rnd, country):
+    """a scenario of spec/MC_TaxSheets.tla as a real input: per asset so many sales, gifts and interest payments (one fraction each)"""
+    assets = {}
+    for k, s in enumerate(scen):
+        n = s["sell"] + s["gift"]
+        h = [_tx("in", "buy", 50 + k, max(1, n), price=2)]
+        d = 100
+        for ty in ("sell", "gift"):
+            for _ in range(s[ty]):
+                h.append(_tx("out", ty, d, 1, price=3))
+                d += 3
+        for j in range(s["interest"]):
+            h.append(_tx("in", "interest", 90 + 5 * j + k, 1, price=2))
+        h.sort(key=lambda x: x["t"])
+        assets[f"B{k + 1}"] = h
+    job = make_job(assets, country, rnd, shape="none", method="fifo" if country == "us" else None, perm=False)
+    job["tag"] = "taxsheets:" + json.dumps(scen, sort_keys=True)
+    return job
+
+
 def design_scenarios(module, cfg_text, tagchar):
     cfg = os.path.join(common.scratch(), f"{module}_emit.cfg")
     with open(cfg, "w", encoding="utf-8") as f:
@@ -547,12 +567,13 @@ def design_scenarios(module, cfg_text, tagchar):
 def model_check_design(prop):
     """the stateful generators as designs (spec/MC_RowMap.tla, spec/MC_JpGen.tla), checked exhaustively"""
     res = []
-    for module, props, control in (("MC_RowMap", ("C19",), "MC_RowMap_shared.cfg"), ("MC_JpGen", ("C20",), "MC_JpGen_first_seen.cfg")):
+    for module, props, control in (("MC_RowMap", ("C19",), "MC_RowMap_shared.cfg"), ("MC_JpGen", ("C20",), "MC_JpGen_first_seen.cfg"),
+                                   ("MC_TaxSheets", ("C14",), "MC_TaxSheets_per_asset.cfg")):
         if prop not in props:
             continue
         cfg = os.path.join(common.SPEC, module + ".cfg")
         rc, out = tlc.run_tlc(module + ".tla", cfg, workers=common.NCPU, extra=["-coverage", "1"], tag=module, heap="4g", timeout=1800)
-        out = "\n".join(l for l in out.splitlines() if not l.startswith(('"M|', '"J|')))
+        out = "\n".join(l for l in out.splitlines() if not l.startswith(('"M|', '"J|', '"X|')))
         gen_, dist = tlc.parse_stats(out)
         r = {"module": module, "states": dist, "transitions": gen_}
         if "is violated" in out:
@@ -588,6 +609,13 @@ def run(prop, tier, keep_replays=False):
         scens, dist, trans = design_scenarios("MC_RowMap", f'CONSTANTS NAssets = {2 if q else 3} Design = "per_asset"\nINIT Init\nNEXT Next\nINVARIANT Emit\nCHECK_DEADLOCK FALSE\n', "M")
         jobs += [rowmap_job(s, rnd) for s in scens]
         genstats.append({"module": "MC_RowMap", "scenarios_replayed": len(scens), "exhaustive": True, "states": dist, "transitions": trans})
+    if prop == "C14":
+        scens, dist, trans = design_scenarios("MC_TaxSheets", 'CONSTANTS NAssets = 2 Design = "shared_counter"\nINIT Init\nNEXT Next\nINVARIANT Emit\nCHECK_DEADLOCK FALSE\n', "X")
+        scens = [s_ for s_ in scens if any(sum(a_.values()) > 0 for a_ in s_)]
+        if q:
+            scens = rnd.sample(scens, 80)
+        jobs += [taxsheets_job(s_, rnd, ["us", "ie"][n_ % 2]) for n_, s_ in enumerate(scens)]
+        genstats.append({"module": "MC_TaxSheets", "scenarios_replayed": len(scens), "exhaustive": not q, "states": dist, "transitions": trans})
     if prop == "C20":
         s1, d1, t1 = design_scenarios("MC_JpGen", 'CONSTANTS NAssets = 1 Design = "sorted"\nINIT Init\nNEXT Next\nINVARIANT Emit\nCHECK_DEADLOCK FALSE\n', "J")
         s2, d2, t2 = design_scenarios("MC_JpGen", 'CONSTANTS NAssets = 2 Design = "sorted"\nINIT Init\nNEXT Next\nINVARIANT Emit\nCHECK_DEADLOCK FALSE\n', "J")
